@@ -45,6 +45,7 @@ type G struct {
 	hist    uint64
 	nops    int
 	spawned int
+	resume  bool // received in a rendezvous: parks again in Post before it continues
 }
 
 type chanModel struct {
@@ -199,6 +200,9 @@ func (x *Exec) park(g *G, o op) int {
 		}
 		return 0 // unwinding after an abort: deferred operations pass through
 	}
+	if o.kind != vsrt.KResume {
+		g.resume = false
+	}
 	g.pending = o
 	g.parked = true
 	x.running--
@@ -230,6 +234,19 @@ func preHook(kind vsrt.Kind, obj interface{}, n int) {
 		o.tag, _ = obj.(string)
 	}
 	x.park(g, o)
+}
+
+// postHook: the receiving side of a rendezvous parks again right after the real receive
+func postHook() {
+	x := cur
+	g := x.me()
+	x.mu.Lock()
+	r := g.resume
+	g.resume = false
+	x.mu.Unlock()
+	if r {
+		x.park(g, op{kind: vsrt.KResume})
+	}
 }
 
 // Yield is an explicit scheduling point of harness code (fake source/targets).
@@ -351,7 +368,7 @@ func (x *Exec) enabled() []transition {
 		}
 		o := g.pending
 		switch o.kind {
-		case vsrt.KStart, vsrt.KWgAdd, vsrt.KClose, vsrt.KUnlock:
+		case vsrt.KStart, vsrt.KWgAdd, vsrt.KClose, vsrt.KUnlock, vsrt.KResume:
 			ts = append(ts, transition{a: g.ID, b: -1, desc: fmt.Sprintf("%s:%s", g.Name, vsrt.KindName[o.kind])})
 		case vsrt.KLock:
 			m := x.wgs[o.obj]
@@ -605,6 +622,7 @@ func (x *Exec) fire(t transition) {
 	x.running++
 	if t.b >= 0 {
 		x.gs[t.b].parked = false
+		x.gs[t.b].resume = true // the receiver of a rendezvous
 		x.running++
 	}
 	x.mu.Unlock()
@@ -631,11 +649,12 @@ func Install() {
 	vsrt.GoHook = goHook
 	vsrt.OrderHook = orderHook
 	vsrt.SelectHook = selectHook
+	vsrt.PostHook = postHook
 }
 
 // Uninstall restores pass-through mode.
 func Uninstall() {
-	vsrt.PreHook, vsrt.GoHook, vsrt.OrderHook, vsrt.SelectHook = nil, nil, nil, nil
+	vsrt.PreHook, vsrt.GoHook, vsrt.OrderHook, vsrt.SelectHook, vsrt.PostHook = nil, nil, nil, nil, nil
 }
 
 // abortAll lets every parked goroutine of a finished execution unwind and exit,
